@@ -11,6 +11,7 @@ import (
 	"os"
 	"strconv"
 	"strings"
+	"time"
 )
 
 type opFunc func(a []string) string
@@ -36,7 +37,32 @@ func atou64(s string) uint64 {
 // PanicMsg is filled by run when the real code panicked (recorded, never compared).
 var lastPanic string
 
-func run(line string) (out string) {
+// run executes one operation line under a watchdog: a call into the library that does not come back within
+// opTimeout (VERIF_OP_TIMEOUT seconds, default 20; heavy enumeration ops are exempt) is answered with "timeout" and the
+// remaining lines are still executed (the abandoned goroutine keeps spinning; the process ends with the input).
+func run(line string) string {
+	toks := strings.Split(strings.TrimSpace(line), " ")
+	if strings.HasPrefix(toks[0], "rs.basis") || strings.HasPrefix(toks[0], "hist") || strings.HasPrefix(toks[0], "gf.all") {
+		return run1(line)
+	}
+	ch := make(chan string, 1)
+	go func() { ch <- run1(line) }()
+	select {
+	case o := <-ch:
+		return o
+	case <-time.After(opTimeout):
+		return "timeout"
+	}
+}
+
+var opTimeout = func() time.Duration {
+	if v, err := strconv.Atoi(os.Getenv("VERIF_OP_TIMEOUT")); err == nil && v > 0 {
+		return time.Duration(v) * time.Second
+	}
+	return 20 * time.Second
+}()
+
+func run1(line string) (out string) {
 	toks := strings.Split(strings.TrimSpace(line), " ")
 	f, ok := ops[toks[0]]
 	if !ok {
